@@ -62,3 +62,17 @@ Definition ex_rootless : world := mkW (mkBM AMulti [mkBS [] 4; mkBS (repeat 0 8)
 Example set_root_total_refuted :
   set_root_asfound 10 ex_rootless InDst nullPtr = Panic /\ set_root 10 ex_rootless InDst nullPtr = Err.
 Proof. split; reflexivity. Qed.
+
+(* writePtr as found: copying List.Struct(i) of a byte list (a list member whose data section is
+   one byte) panicked in rawStructPointer (dataWordCount: "data size not aligned by word").
+   The witness: root struct (0 data words, 1 pointer) -> byte list "hi\0"; element 0 as a
+   struct is set as the root of a fresh message.  The repaired code pads the copy to a word. *)
+Definition ex_bytelist_src : segs :=
+  [[0;0;0;0;0;0;1;0; 1;0;0;0;26;0;0;0; 104;105;0;0;0;0;0;0]].
+Definition ex_member : Ptr := mkPtr true 0 16 0 (mkOS 1 0) 62 KStruct false false true.
+Definition ex_fresh : world := mkW (mkBM ASingle [mkBS (repeat 0 8) 1024] [] 100) ex_bytelist_src 100.
+Example write_ptr_member_total_refuted :
+  write_ptr_asfound 10 true ex_fresh 0 0 InSrc ex_member false = Panic /\
+  (exists w', write_ptr 10 true ex_fresh 0 0 InSrc ex_member false = Ok w' /\
+              bm_data (w_dst w') = [[0;0;0;0;1;0;0;0; 104;0;0;0;0;0;0;0]]).
+Proof. split; [reflexivity|]. eexists. split; reflexivity. Qed.
